@@ -16,18 +16,15 @@ Print Assumptions C01_remote_rcpt_needs_relay.
 (** a recipient that was refused never appears in an envelope: the envelope is exactly the accepted ones *)
 Theorem C01_envelope_is_accepted_only : forall o chunks pre env msg post,
   run_session o chunks = pre ++ Handoff env msg :: post ->
-  exists a f rs, trace_run o pre a_init = Some a /\ a_txn a = Some (f, rs) /\ env = env_of (Some (f, rs)).
+  exists a f rs, trace_run o pre a_init = Some a /\ a_txn a = Some (f, rs) /\ env = env_of (o_liphost o) (Some (f, rs)).
 Proof. exact handoff_is_open_transaction. Qed.
 Print Assumptions C01_envelope_is_accepted_only.
 
 Example C01_nonvacuous :
-  exists pre post, run_session {| o_helo := fun _ => true; o_addr := fun _ _ => AP_ok [120]%N None RNotLocal;
-                                  o_ext := fun _ => Ext_ok 0 0; o_relay := 1%Z; o_mx := fun _ => 0; o_qq := fun _ => QQ_ok;
-                                  o_databytes := 0%N; o_trace := fun _ _ _ _ _ => [] |}
+  existsb (fun e => match e with Note (NRcpt _ RNotLocal) => true | _ => false end)
+    (run_session {| o_helo := fun _ => true; o_addr := fun _ _ => AP_ok [120]%N None RNotLocal;
+                    o_ext := fun _ => Ext_ok 0 0; o_relay := 1%Z; o_mx := fun _ => 0; o_qq := fun _ => QQ_ok;
+                    o_databytes := 0%N; o_liphost := []; o_trace := fun _ _ _ _ _ => [] |}
         [ [72;69;76;79;32;120;13;10]; [77;65;73;76;32;70;82;79;77;58;60;97;62;13;10];
-          [82;67;80;84;32;84;79;58;60;98;62;13;10] ]%N
-      = pre ++ Note (NRcpt [120]%N RNotLocal) :: post.
-Proof. eexists _, _. vm_compute. 
-  match goal with |- ?l = _ => 
-    change l with ([Reply 220; Note NBoundary; Note NHelo; Reply 250; Note (NMail [120]%N); Reply 250] ++ Note (NRcpt [120]%N RNotLocal) :: [Reply 250]) end.
-  reflexivity. Qed.
+          [82;67;80;84;32;84;79;58;60;98;62;13;10] ]%N) = true.
+Proof. vm_compute. reflexivity. Qed.
